@@ -43,30 +43,30 @@ type arrival struct {
 }
 
 type Frame struct {
-	v        *Verifier
-	fn       *ssa.Function
-	c        *Contract
-	top      bool
-	depth    int
-	ipdom    map[*ssa.BasicBlock]*ssa.BasicBlock
-	loopOf   map[*ssa.BasicBlock]map[*ssa.BasicBlock]bool // header -> body blocks
-	loopOrd  map[*ssa.BasicBlock]int
-	lhsIdent map[token.Pos]bool
-	returns  []arrival
-	params   map[string]Value
-	entry    *State
-	cnt      map[string]int
-	visits   map[*ssa.BasicBlock]int
-	part     string
-	fname    string
-	caller   *Frame
-	resNames []string
-	curPos   token.Pos
-	blockEnds []token.Pos
-	nextBlock int
-	beforeDefs []beforeDef
-	nextBefore int
-	srcTypes   map[string]types.Type
+	v           *Verifier
+	fn          *ssa.Function
+	c           *Contract
+	top         bool
+	depth       int
+	ipdom       map[*ssa.BasicBlock]*ssa.BasicBlock
+	loopOf      map[*ssa.BasicBlock]map[*ssa.BasicBlock]bool // header -> body blocks
+	loopOrd     map[*ssa.BasicBlock]int
+	lhsIdent    map[token.Pos]bool
+	returns     []arrival
+	params      map[string]Value
+	entry       *State
+	cnt         map[string]int
+	visits      map[*ssa.BasicBlock]int
+	part        string
+	fname       string
+	caller      *Frame
+	resNames    []string
+	curPos      token.Pos
+	blockEnds   []token.Pos
+	nextBlock   int
+	beforeDefs  []beforeDef
+	nextBefore  int
+	srcTypes    map[string]types.Type
 	scratchStop *ssa.BasicBlock
 	named       bool // an inlined function whose loops carry annotations: its source names are tracked like the top function's
 }
